@@ -91,6 +91,12 @@ CLAIMED = {
             "{0,1,3,10}x{1,3,10}; every constrained, updated mode of every returned CP tensor is tested against the operator's "
             "documented set; requests constraining a mode twice must raise ValueError. Sampled, orders 3-4.",
             "Order relations with no slack; sums/norms with slack scaled to the data magnitude.", "DESIGN.md §2 C11"),
+    "C14": ("runtime differential monitor: zero-budget result vs init tensor, weighted vs weight-absorbed starts, bitwise fixed-mode comparison",
+            "Seeded user initialisations (unit / positive / negative / mixed weights; tuple, list and wrapper forms) for the seven "
+            "algorithms that accept one; the n_iter_max=0 result must represent the init tensor, runs started from (weights, factors) "
+            "and from the weight-absorbed form must agree after 1-3 sweeps (with guards for ill-posed sweeps), fixed-mode factors must "
+            "be bit-identical and all-fixed must return the init. Sampled, orders 2-4.",
+            "Non-negative algorithms only with non-negative inits; Tucker fixed factors orthonormal.", "DESIGN.md §2 C14"),
 }
 
 PENDING_REASON = "check not built yet in this session; see DESIGN.md §2 for the planned monitor"
